@@ -10,7 +10,7 @@ RULE = ('documents of the five text grammars are produced by independent seriali
         'ignore_timing_errors; TTML clock time with 0-9 fraction digits or frames, offset times in '
         'h/m/s/ms/f with 0-4 decimals, end= or dur=; SAMI unquoted/quoted ms syncs, 1-3 languages, blank '
         'syncs, two P per sync; MicroDVD default or declared fps). Expected instants are computed in '
-        'Fraction from the spelled fields. Non-trivial: a stamp outside hour 00 or a non-default '
+        'Fraction from the spelled fields. One case in seven is read by a reader object used before; SAMI clearing paragraphs are nbsp / blank / empty. Non-trivial: a stamp outside hour 00 or a non-default '
         'spelling/option (listed in features).')
 ANCHORS = ['pycaption.srt:SRTReader._srttomicro', 'pycaption.srt:SRTReader._find_text_line',
            'pycaption.webvtt:WebVTTReader._parse_timing_line', 'pycaption.webvtt:WebVTTReader._parse_timestamp',
